@@ -30,7 +30,7 @@ def classify(rc, stderr):
     return "exit"
 
 
-def run_script(root, text, argv=(), env=None, timeout=DEADLINE, rash_args=()):
+def run_script(root, text, argv=(), env=None, timeout=DEADLINE, rash_args=(), raw=True):
     shutil.rmtree(root, ignore_errors=True)
     os.makedirs(os.path.join(root, "out"))
     p = os.path.join(root, "s.rh")
@@ -41,7 +41,7 @@ def run_script(root, text, argv=(), env=None, timeout=DEADLINE, rash_args=()):
         e.update(env)
     t0 = time.time()
     try:
-        pr = subprocess.run([C.RASH] + list(rash_args) + ["--output", "raw", p] + list(argv), capture_output=True, timeout=timeout, env=e, cwd=root, start_new_session=True)
+        pr = subprocess.run([C.RASH] + list(rash_args) + (["--output", "raw"] if raw else []) + [p] + list(argv), capture_output=True, timeout=timeout, env=e, cwd=root, start_new_session=True)
         rc, se = pr.returncode, pr.stderr.decode("utf-8", "replace")
     except subprocess.TimeoutExpired:
         rc, se = "timeout", ""
@@ -260,9 +260,20 @@ def c13(run, replay=None):
     for ra in CLI_ARGS:
         items.append(("command-line", dict(text=plain, argv=[], rash_args=ra)))
 
+    # the default (ansible) output format with the environment variables a terminal-aware program looks at, at their
+    # boundary values; also given through -e (which sets them in rash's own process)
+    shown = "#!/usr/bin/env rash\n- name: a named task {{ 1 + 1 }}\n  debug:\n    msg: shown\n- command: \"true\"\n- copy:\n    content: x\n    dest: ROOT/out/f\n"
+    for var in ("COLUMNS", "LINES", "TERM", "NO_COLOR", "CLICOLOR_FORCE", "RUST_LOG", "RUST_BACKTRACE", "LANG", "LC_ALL", "TZ", "HOME", "PATH", "USER", "SHELL", "PWD", "TMPDIR"):
+        for val in ("0", "1", "-1", "99999999999999", "18446744073709551616", "x", "", " ", "\udcff".encode("utf-8", "surrogateescape").decode("utf-8", "surrogateescape")):
+            items.append(("terminal-environment", dict(text=shown, argv=[], env={var: val}, raw=False)))
+            if val and "\udcff" not in val:
+                items.append(("terminal-environment", dict(text=shown, argv=[], rash_args=["-e", "%s=%s" % (var, val)], raw=False)))
+    for ra in (["--diff"], ["--check"], ["-vv"], ["--check", "--diff", "-v"]):
+        items.append(("default-output", dict(text=shown, argv=[], rash_args=ra, raw=False)))
+
     def runit(root, it):
         kind, c = it
-        return run_script(root, c["text"], c.get("argv", ()), c.get("env"), rash_args=c.get("rash_args", ()))
+        return run_script(root, c["text"], c.get("argv", ()), c.get("env"), rash_args=c.get("rash_args", ()), raw=c.get("raw", True))
     outs = parallel(runit, items)
     nontrivial = set()
     for (kind, c), o in zip(items, outs):
